@@ -249,6 +249,10 @@ def run(ctx):
                     others = [D.slots[l] for l in locs if l in D.slots and l not in slots_by_name[fname]]
                     ctx.ob("C01.B.provenance", b.key, "field %s" % fname, len(mine) == 1 and not others, "field %s is built from slots %s" % (fname, sorted(D.slots.get(l, "_%d" % l) for l in locs if l in D.slots)))
     ctx.floor("C01.B", "field slots in derived code", n_slots, 120)
+    if ctx.tier == "thorough":
+        from . import corpus
+        n_tab = corpus.name_table_rules(ctx, "C01", "struct")
+        ctx.floor("C01.N", "corpus struct receivers with a recovered dispatch table", n_tab, 100)
     return ctx.finish(
         explanation="Precedence guards of with_inherited, field-identity wiring of as_codegen_field, emission conditions of the field templates, routing precedence in core_loop, container post-transform placement, and slot/name/converter/provenance rules over %d derived fns (%d slots)." % (len(pop), n_slots),
         assumptions=["[B] rules quantify over the receivers in tests/ and examples/ (plus the corpus in thorough)", "literal-form acceptance is C11/C13's subject"],
